@@ -84,7 +84,8 @@ class Identifier(ASTNode):
         return self.parts_to_str()
 
     def __copy__(self):
-        identifier = Identifier(parts=copy(self.parts))
+        # parts are names or a Star node: the copy gets its own
+        identifier = Identifier(parts=deepcopy(self.parts))
         identifier.alias = deepcopy(self.alias)
         identifier.parentheses = self.parentheses
         if hasattr(self, 'sub_select'):
@@ -92,7 +93,8 @@ class Identifier(ASTNode):
         return identifier
 
     def __deepcopy__(self, memo):
-        identifier = Identifier(parts=copy(self.parts))
+        # parts are names or a Star node: the copy gets its own
+        identifier = Identifier(parts=deepcopy(self.parts))
         identifier.alias = deepcopy(self.alias)
         identifier.parentheses = self.parentheses
         if hasattr(self, 'sub_select'):
